@@ -12,13 +12,16 @@ TECHNIQUE = ("Coq proofs (induction over the live iteration of the message store
              "coq/Sess (handle_resend_request / retrans_callback scenarios #1..#8, send_process) + oracle c18_ok applied to "
              "the traces of the REAL Session/Connection/Persister code (in-memory socket, virtual clock); model traces tied "
              "byte for byte")
-LEVEL_TEXT = ("For every store, every range and every session state with always_seqnum_assign off the modelled answer to a "
-              "ResendRequest is proved equal to an explicit replay plan; from the plan: the resent application messages are "
-              "exactly the stored ones in the range, ascending, each with its original number and fields, PossDupFlag=Y and "
-              "OrigSendingTime = original SendingTime (c18_resent_partial); gap fills of scenarios #2/#3 carry the CURRENT "
-              "next_send instead of the first number of the gap (c18_gapfill_seq_refuted, F22); without a persister the single "
-              "gap fill is as specified (c18_nopersister); next_send afterwards = the last NewSeqNo announced (c18_continue); "
-              "invalid ranges are rejected (c18_reject_invalid).")
+LEVEL_TEXT = ("For every schema, decoder, store, range and session state with always_seqnum_assign off the modelled answer to a "
+              "ResendRequest is proved equal to an explicit replay plan (c18_replay_plan, induction over the live store "
+              "iteration); from it: the resent messages are exactly the stored ones in the range, ascending, each the stored "
+              "message + PossDupFlag=Y + OrigSendingTime = stored SendingTime (c18_resent_partial); gap fills of scenarios "
+              "#2/#3 carry the CURRENT next_send as MsgSeqNum (c18_gapfill_seq_general + witness c18_gapfill_seq_refuted, "
+              "F22); a bounded request ends with a gap fill up to next_send that skips stored messages beyond End "
+              "(c18_overreach_refuted); without a persister the single gap fill is as specified (c18_nopersister); next_send "
+              "afterwards = the NewSeqNo of the last gap fill (c18_continue); invalid ranges get one Reject "
+              "(c18_reject_invalid); with both defect patterns excluded the emitted BYTES satisfy the oracle answer_ok "
+              "(c18_answer_ok_partial); hypotheses satisfiable (c18_nonvacuous, c18_nonvacuous_oracle).")
 LEVEL_NOTE = ("Trusted: Coq kernel, extraction, the hand transcription coq/Sess of session.cpp/persist.cpp (checked by the "
               "correspondence run on every case: the model's trace must equal the real trace byte for byte), the harness "
               "(vsock/vclock), the stand-in decoder simple_decode on well-formed stored messages.")
@@ -37,7 +40,7 @@ ASSUMPTIONS = ["always_seqnum_assign = false (with the option on fix8 renumbers 
 RULE = ("histories: logon, k <= 8 sends mixing application and admin messages (so that the store has holes; file, memory and "
         "no persister; initiator and acceptor; sometimes a restart on the file persister), then a ResendRequest [B,E], a new "
         "message, sometimes a second request and another message.  thorough: ALL subsets of stored numbers x ALL ranges "
-        "(B, E in 0..k+3) for k <= 5, random beyond; quick: all of k <= 3 plus a random sample up to k = 8, always "
+        "(B, E in 0..k+3) for k <= 5, random beyond; quick: all of k <= 2, a sample of k = 3..5 and random ones up to k = 8, always "
         "including E = 0, E beyond the last, B beyond the last, B = 0, B > E.  non-trivial = the history contains a judged "
         "ResendRequest whose range holds at least one stored message or one gap; distinct = distinct case lines")
 
@@ -102,10 +105,6 @@ def history(rng, role, persist, pattern, reqs, asa=0, restart_at=None, step_ns=N
     return h.line()
 
 
-def sent_before_pattern(role):
-    return 1        # the Logon (initiator: sent at start; acceptor: the answer to the inbound Logon)
-
-
 def patterns(k):
     return ["".join(p) for p in itertools.product("ah", repeat=k)]
 
@@ -121,21 +120,27 @@ def edge_ranges(rng, last):
 def gen_cases(rng, tier):
     cs = []
     thorough = tier == "thorough"
-    kmax = 5 if thorough else 3
+    kmax = 5 if thorough else 2
     persists = ["file", "mem", "none"]
-    # 1. exhaustive: all stores x all ranges for small k
-    for k in range(0, kmax + 1):
+
+    def space(k):
+        last = 1 + k
         for pat in patterns(k):
-            last = 1 + k
             for b in range(0, last + 3):
                 for e in range(0, last + 3):
                     for per in persists:
-                        if per == "none" and "a" in pat and pat != "a" * k and not thorough:
-                            continue        # without a persister the pattern does not matter: keep two of them
-                        role = "I" if (b + e + k) % 3 else "A"
-                        cs.append(Case(history(rng, role, per, pat, [(b, e)]), "exhaustive-k%d-%s" % (k, per)))
+                        yield (k, pat, b, e, per)
+
+    # 1. all stores x all ranges for small k (thorough: k <= 5; quick: k <= 2 and a sample of k = 3..5)
+    pts = [p for k in range(0, kmax + 1) for p in space(k)]
+    if not thorough:
+        big = [p for k in (3, 4, 5) for p in space(k) if not (p[4] == "none" and "h" in p[1] and "a" in p[1])]
+        pts += rng.sample(big, 380)
+    for (k, pat, b, e, per) in pts:
+        role = "I" if (b + e + k) % 3 else "A"
+        cs.append(Case(history(rng, role, per, pat, [(b, e)]), "%s-k%d-%s" % ("exhaustive" if k <= kmax else "sample", k, per)))
     # 2. random, larger k, second request
-    n_rand = 2500 if thorough else 420
+    n_rand = 2500 if thorough else 300
     for _ in range(n_rand):
         k = rng.randint(2, 8)
         pat = "".join(rng.choice("aaahhtr") for _ in range(k))
